@@ -14,19 +14,19 @@ func init() {
 			"open corners accepted in every reading and counted as ambiguous: an empty window at position L and a negative length (error or nothing masked), an unknown reference name when no protection is asked, a reference window of length 0 from the command line",
 			"MAJ: any of the tied most frequent characters (gap included, it is a character) is accepted; with a reference both 'most frequent of the column' (the code of Mask) / 'of the counting cells' (the pinned MaskUniqueMAJ test) and 'of the column without the reference row' (docs/commands/mask.md) are accepted",
 			"a cell that is the reference residue in the other letter case may be protected or not; a column that holds one letter in both cases may be counted either way by MaskOccurences (any cell kept or rewritten)",
-			"pending finding (props/c15/FINDINGS.md, key mask-pos-refseq-gap-shifts-later-positions): goalign mask --ref-seq R --pos a,b with a gap replacement converts b on the already rewritten reference; such executions are not judged and are counted under excluded_known",
+			"goalign mask --ref-seq R --pos a,b,... is judged with every position read on the reference as given, also when an earlier position turns the reference residue into a gap (wrong columns before fix 4edb852)",
 			"--pos lists with the MAJ replacement are drawn without repeated positions (a column masked twice takes its second majority from the masked column)",
 			"absence of violations is established on the explored cases only; the enumerated sub-space is covered completely",
 		},
-		LevelText: "Generated-input search against a reference model: ~60 000 (quick) to ~4 million (thorough) maskings of generated alignments, ~20 000 enumerated option tuples on two fixed alignments and ~1 000 (quick) to ~24 000 (thorough) executions of goalign mask, each compared cell by cell with a frame-and-selection model written from the documentation. Shows absence of violations on what was explored; the enumerated tuples are exhaustive for the two alignments.",
+		LevelText: "Generated-input search against a reference model: ~200 000 (quick) to ~4.8 million (thorough) maskings of generated alignments, ~20 000 enumerated option tuples on two fixed alignments and ~1 500 (quick) to ~32 000 (thorough) executions of goalign mask, each compared cell by cell with a frame-and-selection model written from the documentation. Shows absence of violations on what was explored; the enumerated tuples are exhaustive for the two alignments.",
 		LevelNote: "trusts the harness's own selection model and its minimal FASTA reader; corners the documentation leaves open are accepted in every reading and counted",
 		Technique: "property-based testing (rapid): reference model with frame condition; bounded-exhaustive enumeration of windows, flags and thresholds; command-line differential",
 		DesignRef: "DESIGN.md section 5, C15",
 		Runs: []runSpec{
-			{Name: "mask", Test: "^TestMask$", Quick: 50000, Thorough: 120000, Shards: 16},
-			{Name: "occurences", Test: "^TestOccurences$", Quick: 50000, Thorough: 120000, Shards: 16},
+			{Name: "mask", Test: "^TestMask$", Quick: 100000, Thorough: 150000, Shards: 16},
+			{Name: "occurences", Test: "^TestOccurences$", Quick: 100000, Thorough: 150000, Shards: 16},
 			{Name: "enumerate", Test: "^TestEnumerate$", Quick: 1, Thorough: 1},
-			{Name: "cli", Test: "^TestCLI$", Quick: 1500, Thorough: 3000, Shards: 8},
+			{Name: "cli", Test: "^TestCLI$", Quick: 1500, Thorough: 4000, Shards: 8},
 		},
 	})
 }
